@@ -1,7 +1,7 @@
 import PtnModel.Props.C07Dense
-import PtnModel.Proofs.Ham2JW
+import PtnModel.Proofs.Ham2JW5
 /-!
-# Property C07, Jordan-Wigner semantics of the bond-optimized spinless construction: the one-body part
+# Property C07, Jordan-Wigner semantics of the bond-optimized spinless construction
 
 "... `molecular_hamiltonian_mpo(tkin, vint)` represents `H = Σ_ij t_ij a†_i a_j + ½ Σ_ijkl v_ijkl a†_i a†_j a_l a_k` ..."
 
@@ -17,11 +17,22 @@ over the intermediate digit list (`sumDigits 2 L`, the same notion as in the den
 * `jordan_wigner_hop` -- `a†_i a_j`, as a product of dense matrices, is the product operator `I…I C Z…Z A I…I` for `i < j`,
   `I…I A Z…Z C I…I` for `i > j` and `I…I N I…I` for `i = j`, with sign `+1` in all three cases, for every `L` and all `i, j < L`.
 * `kinetic_sem` -- the chain list of the enumeration is `hop ++ int` with `L²` hopping chains whose sum is exactly `Σ_ij t_ij a†_i a_j`.
-* `molecular_chain_sum_jw_partial` -- whenever the constructor returns (`L ≥ 1`), the dense matrix of the MPO is
-  `Σ_ij t_ij a†_i a_j + Σ_{chains of the interaction loop} coeff · padded word`.
+* `jordan_wigner_int` -- for `i < j`, `k < l` (all 13 relative orders, coinciding sites included) the product of dense matrices
+  `(a†_i a†_j)(a_l a_k)` is the product operator whose letter at site `x` is the local product of the letters of `C_i Z…Z C_j` and
+  `A_k Z…Z A_l` (`intF`), with overall sign `+1` (`a†_i a†_j = -C_i Z…Z C_j`, `a_l a_k = -A_k Z…Z A_l`; the two signs cancel).
+* `two_body_sem` -- every chain of the interaction loop has coefficient `gint_ijkl` and exactly that padded word (the case analysis of
+  `molIntChain` on the sorted `(site, OID)` pairs, evaluated for all 13 orders); the interaction chains sum to
+  `Σ_{i<j, k<l} gint_ijkl · a†_i a†_j a_l a_k`.
+* `molecular_chain_sum_jw_partial` -- intermediate form: whenever the constructor returns (`L ≥ 1`), the dense matrix of the MPO is
+  `Σ_ij t_ij a†_i a_j + Σ_{i<j, k<l} gint_ijkl a†_i a†_j a_l a_k`, `gint = ½ (v_ijkl - v_jikl - v_ijlk + v_jilk)`.
+* `jordan_wigner_anticommute` -- `a†_j a†_i = -a†_i a†_j`, `a†_i a†_i = 0`, `a_i a_j = -a_j a_i`, `a_i a_i = 0` for the dense Jordan-Wigner
+  matrices, every `L`.
+* `molecular_chain_sum_jw` -- **the documented operator**: whenever the constructor returns (`L ≥ 1`), for all occupation digit lists
+  `⟨s| MPO |t⟩ = Σ_ij t_ij ⟨s| a†_i a_j |t⟩ + Σ_ijkl ½ v_ijkl ⟨s| a†_i a†_j a_l a_k |t⟩`, all four indices running over `0..L-1`
+  (`½` = the constant `0.5` of the code, `Consts.half`; no identity about it is needed).
 
-*Partial*: the two-body part is not interpreted: that the interaction chain of `(i < j, k < l)` (coefficient `gint_ijkl`) is
-`gint_ijkl · a†_i a†_j a_l a_k` and that `Σ_{i<j,k<l} gint_ijkl a†_i a†_j a_l a_k = ½ Σ_ijkl v_ijkl a†_i a†_j a_l a_k` (anticommutation).
+Not covered: the spin-orbital construction (pairs of modes per site, `to_spin_opchain`, `get_vint_coeff`) and the explicit
+(`optimize=False`) graphs.
 -/
 set_option linter.unusedSectionVars false
 
@@ -66,29 +77,108 @@ theorem kinetic_sem (c : Consts κ) (tkin : List (List κ)) (vint : List (List (
   obtain ⟨hop, int, rfl, hhop, hint⟩ := molChains_split c tkin vint chains h
   exact ⟨hop, int, rfl, hop_length tkin hop hhop, hint, fun s t hs ht => (hop_kinetic tkin hop hhop s t hs ht).2⟩
 
-/-- **The dense matrix of the bond-optimized spinless MPO, one-body part interpreted.**  Whenever
+/-- the letters of `C_i Z…Z C_j`, of `A_k Z…Z A_l`, the local products and the letters of `a†_i a†_j a_l a_k`, spelled out
+(ids `A = -1, I = 0, C = 1, N = 2, Z = 3`) -/
+theorem jordan_wigner_int_letters (i j k l x : Nat) :
+    w1F i j x = (if x < i then 0 else if x = i then 1 else if x < j then 3 else if x = j then 1 else 0) ∧
+    w2F k l x = (if x < k then 0 else if x = k then -1 else if x < l then 3 else if x = l then -1 else 0) ∧
+    intF i j k l x = (sgnMul (w1F i j x) (w2F k l x)).2 ∧
+    (sgnMul 0 0 = (1, 0) ∧ sgnMul 0 (-1) = (1, -1) ∧ sgnMul 0 3 = (1, 3) ∧ sgnMul 1 0 = (1, 1) ∧ sgnMul 1 (-1) = (1, 2) ∧
+     sgnMul 1 3 = (1, 1) ∧ sgnMul 3 0 = (1, 3) ∧ sgnMul 3 (-1) = (1, -1) ∧ sgnMul 3 3 = (1, 0)) :=
+  ⟨rfl, rfl, rfl, by decide⟩
+
+/-- **`a†_i a†_j a_l a_k` under the Jordan-Wigner tables**, `i < j < L`, `k < l < L`, every relative order of the four sites:
+`Σ_u (Σ_{u1} ⟨s|a†_i|u1⟩⟨u1|a†_j|u⟩)(Σ_{u3} ⟨u|a_l|u3⟩⟨u3|a_k|t⟩) = ⟨s| W |t⟩` for the product operator `W` with the letters `intF i j k l`:
+`C`/`A` at the four sites (`N` where a creation and an annihilation site coincide), `Z` strings exactly between the first and second
+and between the third and fourth site (in sorted order), identities elsewhere, sign `+1`. -/
+theorem jordan_wigner_int (L i j k l : Nat) (hij : i < j) (hj : j < L) (hkl : k < l) (hl : l < L) (s t : List Nat)
+    (hs : s.length = L) (ht : t.length = L) :
+    jw4 (κ := κ) L i j k l s t = wordWeight molOpmap ((List.range L).map (intF i j k l)) s t :=
+  jw_int_dense L i j k l hij hj hkl hl s t hs ht
+
+/-- **The two-body part of the enumeration, chain by chain.**  For all `i < j < L`, `k < l < L` the chain created for the index tuple
+has the coefficient it was given and the padded word of `a†_i a†_j a_l a_k`; hence, if the interaction loop returns the chains `int`,
+their dense sum is `Σ_{(i,j,k,l) : i<j, k<l} gint_ijkl · (a†_i a†_j a_l a_k)[s, t]` (`intTuples L` lists exactly these tuples). -/
+theorem two_body_sem (c : Consts κ) (L : Nat) (vint : List (List (List (List κ)))) :
+    (∀ (i j k l : Nat) (coeff : κ), i < j → j < L → k < l → l < L →
+      ∃ ch : OpChain κ, molIntChain (i : Int) (j : Int) (k : Int) (l : Int) coeff = .ok ch ∧ ch.coeff = coeff ∧
+        ch.paddedWord (L : Int) 0 = (List.range L).map (intF i j k l)) ∧
+    (∀ q : Int × Int × Int × Int, q ∈ intTuples L ↔
+      0 ≤ q.1 ∧ q.1 < q.2.1 ∧ q.2.1 < L ∧ 0 ≤ q.2.2.1 ∧ q.2.2.1 < q.2.2.2 ∧ q.2.2.2 < L) ∧
+    (∀ int : List (OpChain κ), (intTuples L).mapM (fun (q : Int × Int × Int × Int) =>
+        molIntChain q.1 q.2.1 q.2.2.1 q.2.2.2 (gint c vint q.1 q.2.1 q.2.2.1 q.2.2.2)) = .ok int →
+      ∀ s t : List Nat, s.length = L → t.length = L →
+        termsEntry molOpmap (denChainsRaw int (L : Int) 0) s t =
+          ((intTuples L).map fun q => gint c vint q.1 q.2.1 q.2.2.1 q.2.2.2 *
+            jw4 L q.1.toNat q.2.1.toNat q.2.2.1.toNat q.2.2.2.toNat s t).sum) :=
+  ⟨fun i j k l coeff h1 h2 h3 h4 => molInt_spec L i j k l h1 h2 h3 h4 coeff, mem_intTuples L,
+    fun int h s t hs ht => int_two_body c L vint int h s t hs ht⟩
+
+/-- **The dense matrix of the bond-optimized spinless MPO under the Jordan-Wigner matrices, antisymmetrised form.**  Whenever
 `molecular_hamiltonian_mpo(tkin, vint, optimize=True)` returns for `L ≥ 1` orbitals: the MPO has `L` sites of dimension 2, and for all
 occupation digit lists `s, t` the matrix element is
-`Σ_ij t_ij (a†_i a_j)[s, t] + Σ_{ch ∈ int} coeff(ch) · Π_k table[padded word(ch)_k][s_k, t_k]`, `int` the chains of the interaction
-loop.  *Partial*: the second summand is not rewritten as `½ Σ_ijkl v_ijkl (a†_i a†_j a_l a_k)[s, t]`. -/
+`Σ_ij t_ij (a†_i a_j)[s, t] + Σ_{i<j, k<l} gint_ijkl (a†_i a†_j a_l a_k)[s, t]` with `gint_ijkl = ½ (v_ijkl - v_jikl - v_ijlk + v_jilk)`.
+(Intermediate form; `molecular_chain_sum_jw` below rewrites the second summand as `½ Σ_ijkl v_ijkl (a†_i a†_j a_l a_k)[s, t]`.) -/
 theorem molecular_chain_sum_jw_partial (c : Consts κ) (tkin : List (List κ)) (vint : List (List (List (List κ))))
     (hL : 1 ≤ (tkin.length : Int)) (b : Built κ) (hb : molBuildOpt c tkin vint = .ok b) :
-    ∃ int : List (OpChain κ),
-      (intTuples tkin.length).mapM (fun (q : Int × Int × Int × Int) =>
-        molIntChain q.1 q.2.1 q.2.2.1 q.2.2.2 (gint c vint q.1 q.2.1 q.2.2.1 q.2.2.2)) = .ok int ∧
-      (b.mpo.toMPO [0, 1]).A.length = tkin.length ∧
-      ∀ s t : List Nat, Digits 2 tkin.length s → Digits 2 tkin.length t →
-        (b.mpo.toMPO [0, 1]).elem s t =
-          ((List.range tkin.length).map fun (i : Nat) => ((List.range tkin.length).map fun (j : Nat) =>
-            t2 tkin (i : Int) (j : Int) * sumDigits 2 tkin.length (fun u =>
-              wordWeight molOpmap (jwC tkin.length i) s u * wordWeight molOpmap (jwA tkin.length j) u t)).sum).sum +
-          termsEntry molOpmap (denChainsRaw int (tkin.length : Int) 0) s t := by
+    (b.mpo.toMPO [0, 1]).A.length = tkin.length ∧
+    ∀ s t : List Nat, Digits 2 tkin.length s → Digits 2 tkin.length t →
+      (b.mpo.toMPO [0, 1]).elem s t =
+        ((List.range tkin.length).map fun (i : Nat) => ((List.range tkin.length).map fun (j : Nat) =>
+          t2 tkin (i : Int) (j : Int) * sumDigits 2 tkin.length (fun u =>
+            wordWeight molOpmap (jwC tkin.length i) s u * wordWeight molOpmap (jwA tkin.length j) u t)).sum).sum +
+        ((intTuples tkin.length).map fun q => gint c vint q.1 q.2.1 q.2.2.1 q.2.2.2 *
+          jw4 tkin.length q.1.toNat q.2.1.toNat q.2.2.1.toNat q.2.2.2.toNat s t).sum := by
   obtain ⟨chains, hch, _, _, _, hd⟩ := (optimized_dense c tkin vint hL).1 b hb
   obtain ⟨hop, int, rfl, _, hint, hk⟩ := kinetic_sem c tkin vint chains hch
-  refine ⟨int, hint, hd.sites, ?_⟩
+  refine ⟨hd.sites, ?_⟩
   intro s t hs ht
-  rw [hd.elem s t hs ht, denChainsRaw, List.map_append, termsEntry_append, ← hk s t hs.1 ht.1]
+  rw [hd.elem s t hs ht, denChainsRaw, List.map_append, termsEntry_append, ← hk s t hs.1 ht.1,
+    ← int_two_body c tkin.length vint int hint s t hs.1 ht.1]
   rfl
+
+/-- **Anticommutation relations of the Jordan-Wigner matrices** (dense products, `jwP L i j = a†_i a†_j`, `jwQ L l k = a_l a_k`), for
+every `L` and `i < j < L`: `a†_j a†_i = -a†_i a†_j`, `a†_i a†_i = 0`, `a_i a_j = -a_j a_i`, `a_i a_i = 0`. -/
+theorem jordan_wigner_anticommute (L i j : Nat) (hij : i < j) (hj : j < L) (s t : List Nat) (hs : s.length = L) (ht : t.length = L) :
+    (sumDigits 2 L fun u => wordWeight (molOpmap : OpMap κ) (jwC L j) s u * wordWeight molOpmap (jwC L i) u t)
+      = -(sumDigits 2 L fun u => wordWeight (molOpmap : OpMap κ) (jwC L i) s u * wordWeight molOpmap (jwC L j) u t) ∧
+    (sumDigits 2 L fun u => wordWeight (molOpmap : OpMap κ) (jwC L i) s u * wordWeight molOpmap (jwC L i) u t) = 0 ∧
+    (sumDigits 2 L fun u => wordWeight (molOpmap : OpMap κ) (jwA L i) s u * wordWeight molOpmap (jwA L j) u t)
+      = -(sumDigits 2 L fun u => wordWeight (molOpmap : OpMap κ) (jwA L j) s u * wordWeight molOpmap (jwA L i) u t) ∧
+    (sumDigits 2 L fun u => wordWeight (molOpmap : OpMap κ) (jwA L i) s u * wordWeight molOpmap (jwA L i) u t) = 0 :=
+  jw_anticommute L i j hij hj s t hs ht
+
+/-- **The bond-optimized spinless MPO is the documented second-quantized operator under the Jordan-Wigner matrices.**  Whenever
+`molecular_hamiltonian_mpo(tkin, vint, optimize=True)` returns for `L ≥ 1` orbitals, for all occupation digit lists `s, t ∈ {0,1}^L`:
+`⟨s| MPO |t⟩ = Σ_{i,j<L} t_ij ⟨s| a†_i a_j |t⟩ + Σ_{i,j,k,l<L} ½ v_ijkl ⟨s| a†_i a†_j a_l a_k |t⟩`, where
+`a†_i = I^i C Z^{L-1-i}`, `a_j = I^j A Z^{L-1-j}` and the products are products of dense `2^L × 2^L` matrices
+(`jw4 L i j k l s t = Σ_u (Σ_{u1} ⟨s|a†_i|u1⟩⟨u1|a†_j|u⟩)(Σ_{u3} ⟨u|a_l|u3⟩⟨u3|a_k|t⟩)`).  Holds for all coefficient tensors (no symmetry
+of `vint` is assumed); `as_matrix()` returns exactly these entries (`optimized_dense`). -/
+theorem molecular_chain_sum_jw (c : Consts κ) (tkin : List (List κ)) (vint : List (List (List (List κ))))
+    (hL : 1 ≤ (tkin.length : Int)) (b : Built κ) (hb : molBuildOpt c tkin vint = .ok b) :
+    ∀ s t : List Nat, Digits 2 tkin.length s → Digits 2 tkin.length t →
+      (b.mpo.toMPO [0, 1]).elem s t =
+        ((List.range tkin.length).map fun (i : Nat) => ((List.range tkin.length).map fun (j : Nat) =>
+          t2 tkin (i : Int) (j : Int) * sumDigits 2 tkin.length (fun u =>
+            wordWeight molOpmap (jwC tkin.length i) s u * wordWeight molOpmap (jwA tkin.length j) u t)).sum).sum +
+        ((List.range tkin.length).map fun (i : Nat) => ((List.range tkin.length).map fun (j : Nat) =>
+          ((List.range tkin.length).map fun (k : Nat) => ((List.range tkin.length).map fun (l : Nat) =>
+            (c.half * v4 vint (i : Int) (j : Int) (k : Int) (l : Int)) * jw4 tkin.length i j k l s t).sum).sum).sum).sum := by
+  intro s t hs ht
+  rw [(molecular_chain_sum_jw_partial c tkin vint hL b hb).2 s t hs ht, two_body_full c vint tkin.length s t hs.1 ht.1]
+  rfl
+
+/-- non-vacuity of `jordan_wigner_int`: `i = 0 < j = 2`, `k = 1 < l = 2` on three modes (`j = l` coincide): the word is `C A N`, and
+`⟨1 0 1| a†_0 a†_2 a_2 a_1 |0 1 1⟩ = C[1,0] · A[0,1] · N[1,1] = 1` -/
+example : (List.range 3).map (intF 0 2 1 2) = [1, -1, 2] ∧
+    wordWeight (molOpmap : OpMap Int) [1, -1, 2] [1, 0, 1] [0, 1, 1] = 1 ∧ jw4 (κ := Int) 3 0 2 1 2 [1, 0, 1] [0, 1, 1] = 1 := by
+  refine ⟨by decide, by decide, ?_⟩
+  rw [jordan_wigner_int 3 0 2 1 2 (by decide) (by decide) (by decide) (by decide) _ _ rfl rfl]
+  decide
+
+/-- non-vacuity of `two_body_sem`: the index tuples on two orbitals are the single tuple `(0, 1, 0, 1)`, and its chain is `g · N N` -/
+example : intTuples 2 = [(0, 1, 0, 1)] ∧ molIntChain 0 1 0 1 (7 : Int) = .ok ⟨[2, 2], [0, 0, 0], 7, 0⟩ := by
+  constructor <;> decide
 
 /-- non-vacuity of `jordan_wigner_hop` and of the sign: on three modes `⟨1 1 0| a†_0 a_2 |0 1 1⟩ = C[1,0] · Z[1,1] · A[0,1] = -1` -/
 example : wordWeight (molOpmap : OpMap Int) [1, 3, -1] [1, 1, 0] [0, 1, 1] = -1 ∧
